@@ -8,7 +8,7 @@ def is_send(c):
     return (c.defp in SEND_FNS) or (c.callee in SEND_FNS)
 
 
-def pretty(atoms, keep=('F', 'K', 'E', 'C', 'V', 'P')):
+def pretty(atoms, keep=('F', 'K', 'E', 'C', 'V', 'P', 'T')):
     out = set()
     for a in atoms:
         if a[0] not in keep:
@@ -28,6 +28,8 @@ def pretty(atoms, keep=('F', 'K', 'E', 'C', 'V', 'P')):
             out.add('C:%s' % '::'.join(c.split('::')[-2:]))
         elif a[0] == 'V':
             out.add('V:%s' % a[1])
+        elif a[0] == 'T':
+            out.add('T:%s.%s' % ('::'.join((a[1] or '?').split('::')[-2:]), a[2]))
         elif a[0] == 'P':
             out.add('P:%s' % a[1])
     return sorted(out)
